@@ -7,10 +7,13 @@ step, the contents of EVERY live sequence as exact integers; the Lean driver run
 on the model (Model/C15.lean); `oracle` runs it on an independent reference made of plain Python
 lists of arrays with explicit identity/link bookkeeping for the documented view semantics.
 """
+import ast
 import itertools
+import os
 
 import numpy as np
 
+import common
 from common import Case
 
 PID = 'C15'
@@ -38,6 +41,15 @@ THEOREMS = [
     'Nb.C15.iopSeq_spec_partial',
     'Nb.C15.orig_view_append_overwrites_parent',
     'Nb.C15.orig_iop_partial',
+    'Nb.C15.step_len',
+    'Nb.C15.tinv_step',
+    'Nb.C15.tinv_run',
+    'Nb.C15.tract_creation_changes_nothing',
+    'Nb.C15.textend_only_receiver_changes',
+    'Nb.C15.textend_preserves_donor',
+    'Nb.C15.growth_of_later_tractogram_keeps_earlier_sequences',
+    'Nb.C15.growing_derived_tractogram_preserves_parent',
+    'Nb.C15.growing_accumulator_preserves_donors',
 ]
 ASSUMPTIONS = [
     'hand-written Lean model of ArraySequence (Model/C15.lean): heap of row buffers (written prefix + '
@@ -86,9 +98,74 @@ PENDING_FINDINGS = [
 
 DT_NAMES = ['f8', 'i8', 'i4', 'i2', 'f4', '?']      # tag 5 (bool) only arises as a comparison result
 DT_CODE = {np.dtype(n).str: i for i, n in enumerate(DT_NAMES)}
-assert [np.dtype(n).itemsize for n in DT_NAMES] == [8, 8, 4, 2, 4, 1]      # Model/C15.lean `itemsize`
 DEFAULT_BYTES = 4 * 1024 * 1024
 SHAPES = [(), (2,), (3,), (2, 2)]
+
+
+GEN_PATH = os.path.join(common.LEAN, 'NibabelModel', 'Generated', 'C15Consts.lean')
+
+
+def _const_int(node):
+    """value of a constant integer expression (`1024 * 1024`)"""
+    if isinstance(node, ast.Constant) and isinstance(node.value, int) and not isinstance(node.value, bool):
+        return node.value
+    if isinstance(node, ast.BinOp) and isinstance(node.op, (ast.Mult, ast.Add, ast.Pow, ast.LShift)):
+        a, b = _const_int(node.left), _const_int(node.right)
+        return {ast.Mult: a * b, ast.Add: a + b, ast.Pow: a ** b, ast.LShift: a << b}[type(node.op)]
+    raise ValueError('not a constant integer expression: ' + ast.dump(node))
+
+
+def inplace_ok(dt_target, operand):
+    """does NumPy accept `arr op= operand` for an array of dtype tag `dt_target` (the result must be castable
+    back with 'same_kind')?  Asked of NumPy itself on a one-element array."""
+    a = np.ones(1, dtype=DT_NAMES[dt_target])
+    try:
+        a += operand
+    except TypeError:
+        return False
+    return True
+
+
+def regen():
+    """Constants of array_sequence.py the model uses, read from the CURRENT source (MEGABYTE, the default
+    `buffer_size`), and the dtype facts of the NumPy in use (item sizes; which in-place operations NumPy
+    refuses because the result cannot be cast back)."""
+    src = open(os.path.join(common.REPO, 'nibabel', 'streamlines', 'array_sequence.py')).read()
+    tree = ast.parse(src)
+    mega = bufsize = None
+    for node in tree.body:
+        if isinstance(node, ast.Assign) and any(isinstance(t, ast.Name) and t.id == 'MEGABYTE' for t in node.targets):
+            mega = _const_int(node.value)
+        if isinstance(node, ast.ClassDef) and node.name == 'ArraySequence':
+            for f in node.body:
+                if isinstance(f, ast.FunctionDef) and f.name == '__init__':
+                    names = [a.arg for a in f.args.args]
+                    defaults = dict(zip(names[len(names) - len(f.args.defaults):], f.args.defaults))
+                    bufsize = _const_int(defaults['buffer_size'])
+    if mega is None or bufsize is None:
+        raise RuntimeError('MEGABYTE / default buffer_size not found in array_sequence.py')
+    nd = len(DT_NAMES)
+    b = lambda x: 'true' if x else 'false'
+    text = ('/-! GENERATED by harness/props/c15.py regen() from the working tree of nibabel\n'
+            '    (nibabel/streamlines/array_sequence.py) and the NumPy in use. Do not edit: rewritten on every run of\n'
+            '    `./check C15`. Core Lean only. -/\n'
+            'namespace Nb.C15.Gen\n\n'
+            '/-- `MEGABYTE`, array_sequence.py -/\n'
+            f'def MEGABYTE : Nat := {mega}\n\n'
+            '/-- default of `buffer_size` (Mb) in `ArraySequence.__init__` -/\n'
+            f'def defaultBufferMb : Nat := {bufsize}\n\n'
+            '/-- item size of each dtype tag (' + ' '.join(f'{i}={n}' for i, n in enumerate(DT_NAMES)) + ') -/\n'
+            'def itemsizes : List Nat := [' + ', '.join(str(np.dtype(n).itemsize) for n in DT_NAMES) + ']\n\n'
+            '/-- NumPy accepts `arr op= 2.0` (Python float) for an array of this dtype tag -/\n'
+            'def inplaceFloatOK : List Bool := [' + ', '.join(b(inplace_ok(i, 2.0)) for i in range(nd)) + ']\n\n'
+            '/-- NumPy accepts `arr_t op= arr_v`: row = dtype tag of the target, column = of the operand -/\n'
+            'def inplaceSeqOK : List (List Bool) := [\n' +
+            ',\n'.join('  [' + ', '.join(b(inplace_ok(i, np.ones(1, dtype=DT_NAMES[j]))) for j in range(nd)) + ']'
+                       for i in range(nd)) + ']\n\n'
+            'end Nb.C15.Gen\n')
+    common.write_if_changed(GEN_PATH, text)
+    return ['Generated.C15Consts.MEGABYTE', 'Generated.C15Consts.defaultBufferMb', 'Generated.C15Consts.itemsizes',
+            'Generated.C15Consts.inplaceFloatOK', 'Generated.C15Consts.inplaceSeqOK']
 
 
 def width(shape):
